@@ -16,8 +16,8 @@ require (
 	github.com/go-logfmt/logfmt v0.6.0 // indirect
 	github.com/gorilla/mux v1.8.1 // indirect
 	github.com/igrmk/treemap/v2 v2.0.1 // indirect
-	github.com/moov-io/iso3166 v0.2.1 // indirect
-	github.com/moov-io/iso4217 v0.3.2 // indirect
+	github.com/moov-io/iso3166 v0.2.1
+	github.com/moov-io/iso4217 v0.3.2
 	github.com/munnerz/goautoneg v0.0.0-20191010083416-a7dc8b61c822 // indirect
 	github.com/prometheus/client_golang v1.22.0 // indirect
 	github.com/prometheus/client_model v0.6.1 // indirect
